@@ -142,9 +142,8 @@ func (w *world) top() (map[string]*sg.Mod, []*sg.Node) {
 	owner := map[string]*sg.Mod{}
 	var tops []*sg.Node
 	for _, m := range w.inl {
-		if m.BelongsTo != "" {
-			continue
-		}
+		// (top-level nodes written in a submodule are top-level nodes of the schema like any other; their types resolve in
+		// the submodule's scope)
 		for _, n := range m.Nodes {
 			owner[n.Name] = w.byName[m.Name]
 			tops = append(tops, n)
